@@ -60,11 +60,17 @@ def process_signature(app, what, name, obj, options,
             # of their own type
             pass
     try:
-        sig = specifiers.signature(obj).evaluated()
+        sig = specifiers.signature(obj)
     except (TypeError, ValueError):
         # inspect.signature raises ValueError if obj is callable but it can't
         # determine a signature, eg. built-in objects
         return sig, return_annotation
+    try:
+        sig = sig.evaluated()
+    except Exception:
+        # postponed annotations that cannot be evaluated here (names only
+        # imported for type checking) are shown as written
+        pass
     ret_annot = sig.return_annotation
     if ret_annot != sig.empty:
         sret_annot = '{0!r}'.format(ret_annot)
